@@ -23,7 +23,7 @@ D1 = {"n": 6, "tag": 141}
 D2 = {"n": 21, "tag": 142}
 K, K2, K3 = "k-main", "k-oneshot", "k-linked"
 
-ACTIONS = ["W1", "W2", "W3", "WH", "WBAD", "WBADI", "WMULTI", "WOTHER", "WHDEC", "W0", "WOVF", "WOVFK", "R", "RH", "ST", "STPART", "M", "L", "E", "CP", "CPU", "HL", "HLDHL", "RM", "RMH", "RF", "CL", "LK", "DFLIP", "DTRUNC", "DUTF8", "DTORN", "DSHORT", "DBADSRI", "DDIR"]
+ACTIONS = ["W1", "W2", "W3", "WH", "WBAD", "WBADI", "WMULTI", "WOTHER", "WHDEC", "W0", "WOVF", "WOVFK", "R", "RH", "ST", "STPART", "M", "L", "E", "CP", "CPU", "HL", "HLDHL", "RM", "RMH", "RF", "CL", "LK", "LKDEL", "DFLIP", "DTRUNC", "DUTF8", "DTORN", "DSHORT", "DBADSRI", "DDIR"]
 MIXED = ["W1", "W2", "WH", "R", "M", "L", "RM", "RF", "DUTF8", "ST", "W3", "W0"]
 
 
@@ -174,6 +174,17 @@ def do_action(srv, side, cache, aux, act):
         return [srv.call({"op": "clear" + suf, "cache": cache})]
     if act == "LK":
         return [srv.call({"op": "link_to" + suf, "cache": cache, "key": K3, "target": os.path.join(aux, "target")})]
+    if act == "LKDEL":
+        # link a file of its own (bytes nobody else stores), delete that file: the content address now holds a dangling link
+        t3 = os.path.join(aux, "target-to-delete")
+        d3 = ref.gen(7, 144)
+        with open(t3, "wb") as fh:
+            fh.write(d3)
+        r1 = srv.call({"op": "link_to" + suf, "cache": cache, "key": K3, "target": t3})
+        os.unlink(t3)
+        s3 = ref.sri("sha256", d3)
+        return [r1, srv.call({"op": "exists" + suf, "cache": cache, "sri": s3}), srv.call({"op": "read_hash" + suf, "cache": cache, "sri": s3}),
+                srv.call({"op": "metadata" + suf, "cache": cache, "key": K3})]
     # ---- damage steps (performed by the driver, identical on the three caches)
     cp = os.path.join(cache, ref.content_rel(sri(D1)))
     bp = os.path.join(cache, ref.bucket_rel(K))
